@@ -87,6 +87,10 @@ func c07Gen(r *Rng, id int) c07Hist {
 		h.Ops = append(h.Ops, c07Op{Op: "bond", U: r.Intn(3), Sel: 9, Rnd: r.Next()}, c07Op{Op: "bond", U: 3, Sel: 8, Rnd: r.Next()},
 			c07Op{Op: "kborrow", U: 1, Sel: 3, Rnd: r.Next()}, c07Op{Op: "blocks", Dt: r.Pick(86400, 7*86400)}, c07Op{Op: "kaccrue", U: 1})
 	}
+	if r.Chance(30) {
+		u := r.Intn(c07Users)
+		h.Ops = append(h.Ops, c07Op{Op: "bond", U: u, Sel: 12, Rnd: r.Next()}, c07Op{Op: "blocks", Dt: 5}, c07Op{Op: "unbond", U: u, Sel: 9, Rnd: r.Next() &^ 3})
+	}
 	n := 28 + r.Intn(22)
 	for k := 0; k < n; k++ {
 		x := r.Intn(100)
@@ -397,6 +401,8 @@ func (x *c07Run) bondAmount(op c07Op, cur c07Snap) *big.Int {
 	case 11: // whole shares' worth exactly
 		k := r.Decade(0, 6)
 		return bmax(big.NewInt(1), bdiv(bmul(k, rate), c07P))
+	case 12: // as much as the whole vault: afterwards this lender holds about half of all shares
+		return bmax(big.NewInt(1), new(big.Int).Set(cur.TV))
 	case 13: // invalid: zero / negative (ValidateBasic)
 		return big.NewInt(0)
 	case 14:
@@ -437,6 +443,12 @@ func (x *c07Run) unbondAmount(op c07Op, cur c07Snap) *big.Int {
 		return bmax(big.NewInt(1), badd(s, big.NewInt(int64(r.Intn(3)-1))))
 	case 8:
 		return bmax(big.NewInt(1), r.Big(badd(own, big.NewInt(1))))
+	case 9, 10: // relative to the TOTAL share supply: exactly half of it, all of it, one unit either side (special cases of "last lender")
+		t := bdiv(cur.S, big.NewInt(2))
+		if op.Sel == 10 {
+			t = new(big.Int).Set(cur.S)
+		}
+		return bmax(big.NewInt(1), badd(t, big.NewInt(int64(r.Intn(3)-1))))
 	case 11: // invalid: zero / negative (ValidateBasic)
 		return big.NewInt(0)
 	case 12:
